@@ -166,11 +166,11 @@ static void mi_os_prim_free(void* addr, size_t size, size_t commit_size) {
 void _mi_os_free_ex(void* addr, size_t size, bool still_committed, mi_memid_t memid) {
   if (mi_memkind_is_os(memid.memkind)) {
     size_t csize = memid.mem.os.size;
-    if (csize==0) { _mi_os_good_alloc_size(size); }
+    if (csize==0) { csize = _mi_os_good_alloc_size(size); }
     size_t commit_size = (still_committed ? csize : 0);
     void* base = addr;
     // different base? (due to alignment)
-    if (memid.mem.os.base != base) {
+    if (memid.mem.os.base != NULL && memid.mem.os.base != base) {
       mi_assert(memid.mem.os.base <= addr);      
       base = memid.mem.os.base;
       const size_t diff = (uint8_t*)addr - (uint8_t*)memid.mem.os.base;
@@ -325,6 +325,8 @@ void* _mi_os_alloc(size_t size, mi_memid_t* memid) {
   void* p = mi_os_prim_alloc(size, 0, true, false, &os_is_large, &os_is_zero);
   if (p != NULL) {
     *memid = _mi_memid_create_os(true, os_is_zero, os_is_large);
+    memid->mem.os.base = p;
+    memid->mem.os.size = size;
   }
   return p;
 }
@@ -345,6 +347,7 @@ void* _mi_os_alloc_aligned(size_t size, size_t alignment, bool commit, bool allo
     *memid = _mi_memid_create_os(commit, os_is_zero, os_is_large);
     memid->mem.os.base = os_base;
     // memid->mem.os.alignment = alignment;
+    memid->mem.os.size = size;
     memid->mem.os.size += ((uint8_t*)p - (uint8_t*)os_base);  // todo: return from prim_alloc_aligned
   }
   return p;
